@@ -746,7 +746,10 @@ fn kex_2(w: &mut World, op: &Value) -> R<Value> {
             w.check("C15", "O15.4-offcurve-rejected", ra_valid || class != Class::Ok, case, key.clone(), || {
                 format!("exchange_2 accepted an R_A that is not a valid curve point: {}", hex::encode(&ra))
             });
-            if ra_valid {
+            // on a re-used object a library may legitimately refuse to run again: completeness is
+            // demanded on fresh objects only (whatever it does accept must still be right)
+            let reused = gb(op, "reused");
+            if ra_valid && !reused {
                 w.check("C15", "O15.1-step2-succeeds", class == Class::Ok, case, key.clone(), || format!("exchange_2 ended in {} on a valid R_A", class.as_str()));
             }
             if let Some((rb, sb)) = val {
@@ -832,7 +835,7 @@ fn kex_3(w: &mut World, op: &Value) -> R<Value> {
                 w.check("C15", "O15.3-tamper-detected", !(class == Class::Ok && !ref_accepts), case, key.clone(), || {
                     format!("exchange_3 accepted (R_B,S_B) that the reference initiator rejects: R_B={} S_B={}", hex::encode(&rb), hex::encode(&sb))
                 });
-                w.check("C15", "O15.1-step3-succeeds", !(ref_accepts && class != Class::Ok), case, key.clone(), || {
+                w.check("C15", "O15.1-step3-succeeds", gb(op, "reused") || !(ref_accepts && class != Class::Ok), case, key.clone(), || {
                     format!("exchange_3 ended in {} on (R_B,S_B) that the reference initiator accepts", class.as_str())
                 });
             }
@@ -901,7 +904,7 @@ fn kex_4(w: &mut World, op: &Value) -> R<Value> {
             });
             let stored_same = ra_stored == step2_ra;
             if stored_same {
-                w.check("C15", "O15.1-step4-succeeds", !(ref_accepts && !acc), case, key, || {
+                w.check("C15", "O15.1-step4-succeeds", gb(op, "reused") || !(ref_accepts && !acc), case, key, || {
                     format!("exchange_4 returned {}/{} on an S_A the reference responder accepts", class.as_str(), acc)
                 });
             } else {
